@@ -290,6 +290,13 @@ def conditional_to_ast(statement):
 
 def loop_to_ast_node(statement):
     if isinstance(statement, Assign) and statement.loops:
+        if statement.condition is not True:
+            # The guard is tested once, before the loop bounds are
+            # evaluated (they may only be defined if it holds).
+            return IfThenElse(statement.condition,
+                loop_to_ast_node(statement.copy(condition=True)),
+                NullASTNode())
+
         loop_var_name, lower, upper = statement.loops[0]
         new_statement = statement.copy(loops=statement.loops[1:])
         return ForLoop(
